@@ -9,7 +9,47 @@ from pyvc.values import Ext, NoOp, PyRaise, Unsupported, VClass, VDict, VList, V
 
 from .api_common import CollectionsStub, ModuleStub
 
-OPS = {"OP_ADD": 1, "OP_SUB": 2, "OP_MUL": 3, "OP_DIV": 4, "OP_NEG": 5, "OP_FABS": 6, "OP_SQRT": 7, "OP_IF_ELSE_ZERO": 8, "OP_OTHER": 99}
+from .casadi_facts import casadi_facts
+
+
+class _Ops(dict):
+    """operation codes: the OP_* constants of the installed casadi module (introspected), plus a code no operation has"""
+
+    def _load(self):
+        if not dict.__len__(self):
+            dict.update(self, casadi_facts()["op_codes"])
+            dict.__setitem__(self, "OP_OTHER", -99)
+
+    def __getitem__(self, k):
+        self._load()
+        return dict.__getitem__(self, k)
+
+    def __contains__(self, k):
+        self._load()
+        return dict.__contains__(self, k)
+
+    def get(self, k, d=None):
+        self._load()
+        return dict.get(self, k, d)
+
+    def items(self):
+        self._load()
+        return dict.items(self)
+
+    def keys(self):
+        self._load()
+        return dict.keys(self)
+
+    def __iter__(self):
+        self._load()
+        return dict.__iter__(self)
+
+
+OPS = _Ops()
+# one-operand operations f with  f(x) = 0  <=>  x = 0  on f's domain (mathematics, stated here once; every other one-operand
+# operation is treated as an arbitrary real function, so dropping it from an equation is not justified)
+ROOT_PRESERVING = {"OP_NEG", "OP_FABS", "OP_SQRT", "OP_SQ", "OP_TWICE", "OP_ASIN", "OP_ATAN", "OP_SINH", "OP_TANH", "OP_ASINH", "OP_ATANH",
+                   "OP_SIGN", "OP_ERF", "OP_ERFINV", "OP_LOG1P", "OP_EXPM1"}
 
 
 class E(Ext):
@@ -123,11 +163,17 @@ def denote(t, env):
         return z3.If(d[0] != 0, d[1], d[2])
     if k == "opaque":
         return t.value
+    if len(d) == 1 and k in casadi_facts()["unary_ops"]:
+        u = z3.Function("u_" + k, z3.RealSort(), z3.RealSort())(d[0])
+        if k in ROOT_PRESERVING:
+            # some real function that vanishes exactly where its operand does
+            return z3.If(d[0] == 0, z3.RealVal(0), z3.If(u == 0, z3.RealVal(1), u))
+        return u
     raise Unsupported("denotation of %s" % k)
 
 
 def casadi_module():
-    m = ModuleStub("casadi", dict(OPS))
+    m = ModuleStub("casadi", {k_: v_ for k_, v_ in OPS.items() if k_ != "OP_OTHER"})
     m.attrs["if_else"] = stub(if_else)
     mx = VClass("MX")
     mx.constructor = lambda eng, c, a, k: a[0] if isinstance(a[0], E) else const(_val(a[0]))
